@@ -13,7 +13,9 @@
   ±inf — and the defect they contain for Gamma/Erlang with an infinite rate.
 
   Part 3 (every carrier): finite arguments for which the scaled argument overflows and the cdf
-  panics (branch-logic halves of witnesses observed on the crate).
+  panics (branch-logic halves of witnesses observed on the crate); for Gamma the scaled argument
+  `x * rate` is guarded since a21bb2d (`0.0` on underflow, `1.0` on overflow) and all three
+  branches are pinned.
 
   Not stated: "cdf = 1 at the support maximum" for Poisson / NegativeBinomial, whose `max()` is
   `u64::MAX` standing for +∞ (in exact arithmetic the value there is < 1); ±inf for StudentsT,
@@ -48,7 +50,7 @@ theorem gamma_cdf_mono_rel (S : GammaSpec) (d : Gamma ℝ) (hs : 0 < d.f_shape) 
 /-- Gamma: cdf = 0 at and below the support minimum 0 (no premise) -/
 theorem gamma_cdf_below_min (d : Gamma ℝ) (x : ℝ) (hx : x ≤ Gamma.min d) : Gamma.cdf d x = 0 := by
   have hx' : x ≤ 0 := by unfold Gamma.min at hx; norm_num at hx; exact hx
-  rw [gamma_cdf_real, if_pos hx']
+  rw [gamma_cdf_real_full, if_pos hx']
 
 example : ∃ d : Gamma ℝ, 0 < d.f_shape ∧ 0 < d.f_rate := ⟨⟨3, 1⟩, by norm_num, by norm_num⟩
 
@@ -427,27 +429,69 @@ end AnyCarrier
 /-! # Part 3 — every carrier: finite arguments whose scaled argument overflows to +inf
 
   Over ℝ nothing overflows, so Part 1 is silent about this.  In IEEE arithmetic the argument the
-  cdf hands to the special function (`x * rate`, `x * x / 2`, `rate / x`, `d₁x / (d₁x + d₂)`) can be
+  cdf hands to the special function (`x * x / 2`, `rate / x`, `d₁x / (d₁x + d₂)`) can be
   `+inf` / `NaN` for a finite `x` that passed every guard, and the implementation behind
   `SF.gamma_lr` / `SF.gamma_ur` / `SF.beta_reg` then returns `Err`, which the unchecked wrapper
   unwraps: the cdf panics instead of returning a number in [0,1].
   [observed on the crate — all constructors succeed, every call below panics:
-     Gamma::new(3.0, 1e308).cdf(1e308)            (x·rate = +inf)
      Gamma::new(INF, 1.0).cdf(5.0)                (shape = +inf is accepted when the rate is finite)
      Chi::new(3).cdf(1e200), .sf(1e200)           (x·x/2 = +inf)
      InverseGamma::new(3.0, 5.0).cdf(1e-320)      (rate/x = +inf)
      FisherSnedecor::new(3.0, 5.0).cdf(1e308), .sf(1e308)   (d₁x = +inf, inf/inf = NaN)]
   The lemmas below are the two halves of each witness that are pure branch logic: which call the
-  cdf makes once its guards are passed, and that the implementation rejects that call. -/
+  cdf makes once its guards are passed, and that the implementation rejects that call.
+  Gamma (hence ChiSquared, Erlang) no longer belongs to the `x·rate` list: since a21bb2d
+  `Gamma::cdf` computes `scaled = x * rate` first and returns `0.0` when `scaled == 0.0`
+  (underflow) and `1.0` when `scaled` is infinite (overflow; the former witness
+  `Gamma::new(3.0, 1e308).cdf(1e308)` now returns 1.0) — `gamma_cdf_scaled_zero`,
+  `gamma_cdf_scaled_inf` below pin these two branches for every carrier, and
+  `gamma_cdf_calls_gamma_lr` states the remaining call under all six guards. -/
 section Overflow
 variable {α : Type} [Add α] [Sub α] [Mul α] [Div α] [Neg α] [LT α] [LE α] [BEq α] [DecidableLT α]
   [DecidableLE α] [OfScientific α] [Inhabited α] [RFun α]
 
-/-- past its guards, `Gamma::cdf` is the call `gamma_lr(shape, x * rate)` -/
+/-- past its guards (now including `scaled ≠ 0`, `scaled` finite), `Gamma::cdf` is the call
+    `gamma_lr(shape, x * rate)` -/
 theorem gamma_cdf_calls_gamma_lr [SF α] (d : Gamma α) (x : α) (h0 : ¬ x ≤ (0.0 : α))
-    (hr : RFun.isInf d.f_rate = false) (hx : RFun.isInf x = false) :
+    (hr : RFun.isInf d.f_rate = false) (hx : RFun.isInf x = false)
+    (hz : ((x * d.f_rate) == (0.0 : α)) = false) (hi : RFun.isInf (x * d.f_rate) = false) :
     Gamma.cdf d x = SF.gamma_lr d.f_shape (x * d.f_rate) := by
-  unfold Gamma.cdf; simp [h0, hr, hx]
+  unfold Gamma.cdf; simp [h0, hr, hx, hz, hi]
+
+/-- a finite positive `x` whose scaled argument `x * rate` compares equal to `0.0` (underflow):
+    `Gamma::cdf` returns `0.0` without calling `gamma_lr` -/
+theorem gamma_cdf_scaled_zero [SF α] (d : Gamma α) (x : α) (h0 : ¬ x ≤ (0.0 : α))
+    (hr : RFun.isInf d.f_rate = false) (hx : RFun.isInf x = false)
+    (hz : ((x * d.f_rate) == (0.0 : α)) = true) :
+    Gamma.cdf d x = (0.0 : α) := by
+  unfold Gamma.cdf; simp [h0, hr, hx, hz]
+
+/-- a finite positive `x` whose scaled argument `x * rate` overflows to `±inf`: `Gamma::cdf`
+    returns `1.0` (before a21bb2d this was the panicking call `gamma_lr(shape, +inf)`) -/
+theorem gamma_cdf_scaled_inf [SF α] (d : Gamma α) (x : α) (h0 : ¬ x ≤ (0.0 : α))
+    (hr : RFun.isInf d.f_rate = false) (hx : RFun.isInf x = false)
+    (hz : ((x * d.f_rate) == (0.0 : α)) = false) (hi : RFun.isInf (x * d.f_rate) = true) :
+    Gamma.cdf d x = (1.0 : α) := by
+  unfold Gamma.cdf; simp [h0, hr, hx, hz, hi]
+
+/-- the same three branches for `Gamma::sf` (`1.0` / `0.0` / `gamma_ur(shape, x * rate)`) -/
+theorem gamma_sf_calls_gamma_ur [SF α] (d : Gamma α) (x : α) (h0 : ¬ x ≤ (0.0 : α))
+    (hr : RFun.isInf d.f_rate = false) (hx : RFun.isInf x = false)
+    (hz : ((x * d.f_rate) == (0.0 : α)) = false) (hi : RFun.isInf (x * d.f_rate) = false) :
+    Gamma.sf d x = SF.gamma_ur d.f_shape (x * d.f_rate) := by
+  unfold Gamma.sf; simp [h0, hr, hx, hz, hi]
+
+theorem gamma_sf_scaled_zero [SF α] (d : Gamma α) (x : α) (h0 : ¬ x ≤ (0.0 : α))
+    (hr : RFun.isInf d.f_rate = false) (hx : RFun.isInf x = false)
+    (hz : ((x * d.f_rate) == (0.0 : α)) = true) :
+    Gamma.sf d x = (1.0 : α) := by
+  unfold Gamma.sf; simp [h0, hr, hx, hz]
+
+theorem gamma_sf_scaled_inf [SF α] (d : Gamma α) (x : α) (h0 : ¬ x ≤ (0.0 : α))
+    (hr : RFun.isInf d.f_rate = false) (hx : RFun.isInf x = false)
+    (hz : ((x * d.f_rate) == (0.0 : α)) = false) (hi : RFun.isInf (x * d.f_rate) = true) :
+    Gamma.sf d x = (0.0 : α) := by
+  unfold Gamma.sf; simp [h0, hr, hx, hz, hi]
 
 /-- past its guards, `Chi::cdf` is the call `gamma_lr(k/2, x*x/2)` -/
 theorem chi_cdf_calls_gamma_lr [SF α] (d : Chi) (x : α) (hx : (x == (RFun.inf : α)) = false)
